@@ -652,14 +652,14 @@ class QueueManagerConnector(BatchConnector, ConnectorWrapper, ABC):
         for job_id, location in self._scheduled_jobs.items():
             inner_location = get_inner_location(location)
             jobs_map.setdefault(inner_location.name, []).append(job_id)
-            loc_map.setdefault(inner_location.name, inner_location)
+            loc_map.setdefault(inner_location.name, location)
+        self._scheduled_jobs = {}
         await asyncio.gather(
             *(
                 asyncio.create_task(self._remove_jobs(loc_map[location], jobs))
                 for location, jobs in jobs_map.items()
             )
         )
-        self._scheduled_jobs = {}
         if self._inner_ssh_connector:
             if logger.isEnabledFor(logging.INFO):
                 logger.warning(
